@@ -90,7 +90,8 @@ package astvalidation
 // fields with one response name are compared. The relation is symmetric: an object and an interface overlap exactly
 // when the object implements the interface, whichever of the two comes first in the document.
 //@ func fieldSelectionMergingVisitor.potentiallySameObject
-//@   requires f != nil && f.definition != nil
+//@   requires f != nil
+//@   assumes {the.visitor.was.bound.to.the.documents.by.EnterDocument} f.definition != nil
 //@   ghost var g_asked bool = false
 //@   ghost var g_res bool = false
 //@   at call Document.NodeImplementsInterfaceNode: assert {the.implements.relation.is.asked.for.the.object.and.the.interface.in.that.order} arg1.Kind == ast.NodeKindObjectTypeDefinition && arg2.Kind == ast.NodeKindInterfaceTypeDefinition && ((arg1 == left && arg2 == right) || (arg1 == right && arg2 == left))
@@ -166,3 +167,15 @@ package astvalidation
 //@   safety no-bounds
 //@   loop 0:
 //@     invariant !g_bad && count(validationError) == old(count(validationError)) && g_seen == phi0 + 1 && g_defs >= 0
+
+// C04, selections with the same response name are mergeable (spec: FieldsInSetCanMerge / SameResponseShape apply to
+// every field, meta fields included): before a field is accepted the fields already recorded under its response
+// name and path are consulted.
+//@ func fieldSelectionMergingVisitor.EnterField
+//@   requires f != nil && f.operation != nil && f.definition != nil && f.Walker != nil
+//@   ghost var g_consulted bool = false
+//@   at call fieldSelectionMergingVisitor.ScalarRequirementsByPathField: ghost g_consulted = true
+//@   at call fieldSelectionMergingVisitor.NonScalarRequirementsByPathField: ghost g_consulted = true
+//@   ensures {a.field.is.accepted.only.after.the.fields.with.its.response.name.were.consulted} count(validationError) == old(count(validationError)) ==> g_consulted
+//@   modifies *, count(*)
+//@   safety none
